@@ -15,7 +15,7 @@ RULE = ('cases: nested lists/dicts (depth <= 3) holding 1-5 float Series / DataF
         'of lengths 0-6 (full shape and every cell observed) for ij/oj/lj/rj x method, a stream of lj/rj joins over >= 3 series whose last/first index repeats another one, and a small malformed stream mixing arrays with Series (ValueError). '
         'Observed: container structure, index, columns, every cell, is-identity of pass-through members; compared in Coq '
         'with the model M_align evaluated by vm_compute; the oracle recomputes index / cells / columns from the property text '
-        'with Python sets and linear scans. non-trivial = at least two timeseries with different, overlapping indices (or two '
+        'with Python sets and linear scans. Every stream is further varied in kind: tick length 1 us .. 1 day and origins 1900 / 2020 / 2250, policy / method / column spellings (inner, Outer, pad, backfill, ..), multi-letter and integer column names and dict keys, int-dtype operands, +-inf cells, 120-250-row series, presync via keywords / .oj.ffill attributes / join=<parameter name>, direct df_columns. non-trivial = at least two timeseries with different, overlapping indices (or two '
         'arrays of different lengths); distinct by full input')
 EXPLANATION = ('theorems C03_* (coq/props/C03.v) hold for every nested collection, every index and every policy: common index '
                '(intersection / union / first / last / explicit), values intact, missing = NaN, ffill/bfill = as-of join on '
@@ -35,8 +35,23 @@ GRID = 14
 POLICIES = ['ij', 'oj', 'lj', 'rj']
 METHODS = [None, 'ffill', 'bfill']
 
-def colcode(c): return ord(c) - 96
-def keycode(k): return ord(k) - 96
+DAYUS = 86400 * 10**6
+INF = 10**9                       # +-inf cells are carried as +-INF (values are carried, never computed, in C03)
+NAMES = {'`': 0, 'px_last': 40, 'vol 2': 41, 'Ab': 42, 'key one': 43, 'K2': 44, 'close': 45}
+import numbers
+def known_name(c):
+    return (isinstance(c, numbers.Integral) and not isinstance(c, bool) and 0 <= c < 50) or (isinstance(c, str) and (c in NAMES or (len(c) == 1 and 'a' <= c <= 'z')))
+def colcode(c):
+    """column / key names -> the integer the model uses (single letters, a few longer names, small ints)"""
+    if isinstance(c, numbers.Integral):
+        return 100 + int(c)
+    return NAMES[c] if c in NAMES else ord(c) - 96
+keycode = colcode
+_AX = {'d0': D0, 'unit': DAYUS}
+def set_axis(case):
+    """the model's time axis is an integer tick; a case may choose the tick length (down to 1 microsecond) and the origin"""
+    _AX['unit'] = case.get('unit', DAYUS)
+    _AX['d0'] = datetime.datetime.fromisoformat(case['d0']) if case.get('d0') else D0
 
 # ------------------------------------------------------------------ walking the JSON trees
 def leaves(tr):
@@ -58,7 +73,7 @@ def cq_leaf(l):
     if 'S' in l:
         return 'OS [' + '; '.join('((%d), %s)' % (t, cq_cell(v)) for t, v in l['S']) + ']'
     if 'F' in l:
-        f = l['F']; order = sorted(range(len(f['cols'])), key=lambda i: f['cols'][i])
+        f = l['F']; order = sorted(range(len(f['cols'])), key=lambda i: colcode(f['cols'][i]))
         rows = '; '.join('((%d), [%s])' % (t, '; '.join(cq_cell(r[i]) for i in order)) for t, r in zip(f['idx'], f['rows']))
         return 'OF %s [%s]' % (cq_zl([colcode(f['cols'][i]) for i in order]), rows)
     if 'A' in l:
@@ -82,10 +97,10 @@ def cq_method(m): return {None: 'MNone', 'ffill': 'MFfill', 'bfill': 'MBfill'}[m
 def cq_cols(c): return 'None' if c is None else '(Some %s)' % cq_how(c)
 
 def coq_runner(case):
-    return {'index': 'run_index', 'reindex': 'run_reindex', 'sync': 'run_sync', 'presync': 'run_presync'}[case['kind']]
+    return {'index': 'run_index', 'reindex': 'run_reindex', 'sync': 'run_sync', 'presync': 'run_presync', 'columns': 'run_columns'}[case['kind']]
 def coq_case(case):
     k = case['kind']
-    if k == 'index':
+    if k in ('index', 'columns'):
         return '(%s, %s)' % (cq_tree(case['tree']), cq_how(case['how']))
     if k == 'reindex':
         return '(%s, %s, %s)' % (cq_tree(case['tree']), cq_how(case['how']), cq_method(case['method']))
@@ -96,13 +111,18 @@ def coq_case(case):
 
 # ------------------------------------------------------------------ implementation side
 def impl_setup():
-    global pd, np, df_sync, df_index, df_reindex, presync
+    global pd, np, df_sync, df_index, df_reindex, presync, df_columns
     import pandas as pd, numpy as np
-    from pyg_base._pandas import df_sync, df_index, df_reindex, presync
+    from pyg_base._pandas import df_sync, df_index, df_reindex, presync, df_columns
 
 def mkidx(days):
-    return pd.DatetimeIndex([D0 + datetime.timedelta(days=d) for d in days])
-def fl(v): return float('nan') if v is None else float(v)
+    return pd.DatetimeIndex([_AX['d0'] + datetime.timedelta(microseconds=d * _AX['unit']) for d in days])
+def fl(v): return float('nan') if v is None else float('inf') if v == INF else float('-inf') if v == -INF else float(v)
+def all_int(vals): return all(v is not None and abs(v) < INF for v in vals)
+def mkscalar(tr):
+    k = tr.get('nk', 'float'); v = tr['N']
+    if v is None or abs(v) == INF or k == 'float': return fl(v)
+    return int(v) if k == 'int' else np.float64(v) if k == 'np.float64' else np.int64(v)
 
 def build(tr, reg):
     """JSON tree -> python object; reg collects (object, id) of the opaque leaves"""
@@ -111,17 +131,21 @@ def build(tr, reg):
     if 'D' in tr:
         return {k: build(x, reg) for k, x in tr['D']}
     if 'S' in tr:
-        return pd.Series([fl(v) for _, v in tr['S']], mkidx([t for t, _ in tr['S']]), dtype=float)
+        vals = [v for _, v in tr['S']]
+        if tr.get('dt') == 'int' and all_int(vals):
+            return pd.Series([int(v) for v in vals], mkidx([t for t, _ in tr['S']]), dtype=int)
+        return pd.Series([fl(v) for v in vals], mkidx([t for t, _ in tr['S']]), dtype=float)
     if 'F' in tr:
         f = tr['F']
-        data = np.array([[fl(v) for v in r] for r in f['rows']], dtype=float).reshape(len(f['idx']), len(f['cols']))
+        isint = tr.get('dt') == 'int' and all_int([v for r in f['rows'] for v in r])
+        data = np.array([[(int(v) if isint else fl(v)) for v in r] for r in f['rows']], dtype=int if isint else float).reshape(len(f['idx']), len(f['cols']))
         return pd.DataFrame(data, mkidx(f['idx']), list(f['cols']))
     if 'A' in tr:
         return np.array([fl(v) for v in tr['A']], dtype=float)
     if 'A2' in tr:
         return np.array([[fl(v) for v in r] for r in tr['A2']['rows']], dtype=float).reshape(len(tr['A2']['rows']), tr['A2']['k'])
     if 'N' in tr:
-        return fl(tr['N'])
+        return mkscalar(tr)
     k = tr['k']
     o = None if k == 'none' else int(str(100000 + tr['X'])) if k == 'int' else ''.join(['s', str(tr['X'])])
     if o is not None:
@@ -135,14 +159,14 @@ def ccell(v):
     if v != v:
         return 'NaN'
     if math.isinf(v):
-        return 'inf' if v > 0 else '-inf'
+        return INF if v > 0 else -INF
     return int(v) if v == int(v) else 'f:' + v.hex()
 
 def cdays(index):
     out = []
     for t in index:
-        d = t - D0
-        out.append(d.days if d == datetime.timedelta(days=d.days) else 'us:%d' % (d // datetime.timedelta(microseconds=1)))
+        us = (t.to_pydatetime() - _AX['d0']) // datetime.timedelta(microseconds=1)
+        out.append(us // _AX['unit'] if us % _AX['unit'] == 0 else 'us:%d' % us)
     return out
 
 def canon(o, reg, cell=ccell):
@@ -152,16 +176,16 @@ def canon(o, reg, cell=ccell):
     if isinstance(o, tuple):
         return ['T', [canon(x, reg, cell) for x in o]]
     if isinstance(o, dict):
-        return ['D', [[keycode(k) if isinstance(k, str) and len(k) == 1 else str(k), canon(x, reg, cell)] for k, x in o.items()]]
+        return ['D', [[keycode(k) if known_name(k) else str(k), canon(x, reg, cell)] for k, x in o.items()]]
     if isinstance(o, (pd.Series, pd.DataFrame)) and len(o.index) and not isinstance(o.index, pd.DatetimeIndex):
         return ['S?' if isinstance(o, pd.Series) else 'F?', [str(x) for x in o.index][:8]]
     if isinstance(o, pd.Series):
         return ['S', cdays(o.index), [cell(v) for v in o.values]]
     if isinstance(o, pd.DataFrame):
         cols = list(o.columns)
-        if len(set(cols)) != len(cols) or not all(isinstance(c, str) and len(c) == 1 for c in cols):
+        if len(set(cols)) != len(cols) or not all(known_name(c) for c in cols):
             return ['F?', [str(c) for c in cols]]
-        order = sorted(range(len(cols)), key=lambda i: cols[i])
+        order = sorted(range(len(cols)), key=lambda i: colcode(cols[i]))
         return ['F', cdays(o.index), [colcode(cols[i]) for i in order], [[cell(v) for v in o.iloc[:, i].values] for i in order]]
     if isinstance(o, np.ndarray):
         if o.ndim == 1:
@@ -188,7 +212,7 @@ def jcanon(tr):
     if 'S' in tr:
         return ['S', [t for t, _ in tr['S']], [c(v) for _, v in tr['S']]]
     if 'F' in tr:
-        f = tr['F']; order = sorted(range(len(f['cols'])), key=lambda i: f['cols'][i])
+        f = tr['F']; order = sorted(range(len(f['cols'])), key=lambda i: colcode(f['cols'][i]))
         return ['F', list(f['idx']), [colcode(f['cols'][i]) for i in order], [[c(r[i]) for r in f['rows']] for i in order]]
     if 'A' in tr:
         return ['A', [c(v) for v in tr['A']]]
@@ -204,6 +228,13 @@ def py_how(h):
         a = h.get('as', 'idx')
         return i if a == 'idx' else pd.Series(0.0, i) if a == 'ts' else dict(index=i)
     return h
+
+HOW_SPELL = {'i': ['ij', 'inner', 'i', 'Inner', 'IJ'], 'o': ['oj', 'outer', 'o', 'Outer', 'OJ'], 'l': ['lj', 'left', 'l', 'LEFT'], 'r': ['rj', 'right', 'r', 'Right']}
+METHOD_SPELL = {'ffill': ['ffill', 'pad', ['ffill']], 'bfill': ['bfill', 'backfill', ['bfill']]}
+def spelled(case, what, v):
+    """the same policy / method under another spelling the code accepts (first letter of the join, pad = ffill, ...)"""
+    sp = (case.get('spell') or {}).get(what)
+    return v if sp is None or isinstance(v, dict) or v is None else sp
 
 # ------------------------------------------------------------------ the property-level oracle (from the statement)
 def prescribed(lvs, how):
@@ -364,6 +395,9 @@ def pyleaves(o):
 def run_case(case):
     """-> (status, observation)"""
     k = case['kind']; reg = []
+    set_axis(case)
+    H = lambda: spelled(case, 'how', py_how(case['how']))
+    M = lambda: spelled(case, 'method', case['method'])
     try:
         if k == 'presync':
             args = [build(a, reg) for a in case['args']]
@@ -379,8 +413,19 @@ def run_case(case):
                 kw['default'] = float(case['default'])
             f = presync(rec, **kw)
             cols = case['columns'] if case['columns'] is not None else False
+            via = case.get('via')
             try:
-                f(*args, join=py_how(case['how']), method=case['method'], columns=cols)
+                if via == 'attr':        # presync(f).oj.ffill(...) instead of join= / method= keywords (columns stay 'inner')
+                    g = getattr(f, case['how'])
+                    g = getattr(g, case['method']) if case['method'] else g
+                    g(*args)
+                elif via == 'kw':        # the last argument passed by keyword
+                    names = 'abc'[:len(args)]
+                    f(*args[:-1], join=H(), method=M(), columns=cols, **{names[-1]: args[-1]})
+                elif via == 'argname':   # join = the NAME of a parameter: that argument's index is the explicit index
+                    f(*args, join=case['argname'], method=M(), columns=cols)
+                else:
+                    f(*args, join=H(), method=M(), columns=spelled(case, 'columns', cols))
             except Exception as e:
                 if not log:
                     raise
@@ -391,18 +436,22 @@ def run_case(case):
             def col_of(call):
                 flat = [x for a in call for x in pyleaves(a)]
                 names = [x.name for x, m in zip(flat, multi) if m and isinstance(x, pd.Series)]
-                return colcode(names[0]) if names and isinstance(names[0], str) and len(names[0]) == 1 else 0
+                return colcode(names[0]) if names and known_name(names[0]) else 0
             log.sort(key=col_of)
             obs_calls = [[canon(x, reg) for x in call] for call in log]
             return 'ok', obs_calls
         obj = build(case['tree'], reg)
+        if k == 'columns':
+            r = df_columns(obj, spelled(case, 'how', case['how']))
+            return 'ok', (None if r is None else ['n', int(r)] if isinstance(r, (int, np.integer)) else
+                          ['C', sorted(colcode(c) for c in r)] if all(known_name(c) for c in r) else ['C?', [str(c) for c in r]])
         if k == 'index':
-            r = df_index(obj, py_how(case['how']))
+            r = df_index(obj, H())
             return 'ok', (None if r is None else ['n', int(r)] if isinstance(r, (int, np.integer)) else ['I', cdays(r)])
         if k == 'reindex':
-            r = df_reindex(obj, py_how(case['how']), method=case['method'])
+            r = df_reindex(obj, H(), method=M())
         else:
-            r = df_sync(obj, py_how(case['how']), case['method'], case['columns'])
+            r = df_sync(obj, H(), M(), spelled(case, 'columns', case['columns']))
         return 'ok', canon(r, reg)
     except Exception as e:
         n = type(e).__name__
@@ -429,6 +478,14 @@ def impl(case):
     if k == 'reindex' and isinstance(how, dict):
         how = dict(how, direct=True)
     target = prescribed(lvs, how)
+    if k == 'columns':
+        C = common_columns(lvs, case['how'])
+        exp = None if C is None else ['C', C]
+        if status != 'ok':
+            viol = 'df_columns raised %s' % status
+        elif obs != exp:
+            viol = 'df_columns(%s) = %s but the common column set is %s' % (case['how'], obs, exp)
+        return {'status': status, 'obs': obs, 'viol': viol}
     if k == 'index':
         exp = None if target is None else [target[0], target[1]]
         if status != 'ok':
@@ -470,7 +527,9 @@ def shape(case):
     return '%s:%s:%s' % (case['kind'] + ('-np2' if any('A2' in l for l in case_leaves(case)) else '-np' if any('A' in l for l in case_leaves(case)) else ''), 'explicit' if isinstance(h, dict) else h, case.get('method'))
 
 # ------------------------------------------------------------------ generation
-def rand_val(rng, pnan=0.3):
+def rand_val(rng, pnan=0.3, pinf=0.0):
+    if pinf and rng.random() < pinf:
+        return rng.choice([INF, -INF])
     return None if rng.random() < pnan else rng.randrange(-9, 10)
 
 def index_family(rng, k, style=None):
@@ -516,13 +575,17 @@ def rand_ts(rng, idx, pframe=0.3, cols_pool='abcd'):
         nc = rng.choice([1, 2, 2, 3])
         cols = rng.sample(cols_pool, nc)
         pn = rng.choice([0.2, 0.5])
-        rows = [[rand_val(rng, pn) for _ in cols] for _ in idx]
+        if rng.random() < 0.1:                      # an int-dtype frame (no NaN possible)
+            return {'F': {'cols': cols, 'idx': list(idx), 'rows': [[rand_val(rng, 0) for _ in cols] for _ in idx]}, 'dt': 'int'}
+        rows = [[rand_val(rng, pn, 0.03) for _ in cols] for _ in idx]
         for r in rows:
             if rng.random() < 0.2:
                 r[:] = [None] * nc
         return {'F': {'cols': cols, 'idx': list(idx), 'rows': rows}}
+    if rng.random() < 0.12:                         # an int-dtype series
+        return {'S': [[t, rand_val(rng, 0)] for t in idx], 'dt': 'int'}
     pn = rng.choice([0.1, 0.3, 0.6])
-    return {'S': [[t, rand_val(rng, pn)] for t in idx]}
+    return {'S': [[t, rand_val(rng, pn, 0.03)] for t in idx]}
 
 class Ids:
     def __init__(self): self.n = 0
@@ -607,8 +670,18 @@ def gen_cases(rng, tier):
         ex = rand_explicit(rng); ex['as'] = 'idx'
         for how in POLICIES + [ex]:
             for m in METHODS:
-                cases.append({'kind': 'presync', 'args': kids, 'how': how, 'method': m, 'columns': rng.choice(['ij', 'oj', 'lj', 'rj', None]),
-                              'default': rng.choice([None, 0, 1])})
+                c = {'kind': 'presync', 'args': kids, 'how': how, 'method': m, 'columns': rng.choice(['ij', 'oj', 'lj', 'rj', None]),
+                     'default': rng.choice([None, 0, 1])}
+                via = rng.choice([None, None, 'kw', 'attr', 'argname'])
+                if via == 'attr' and not isinstance(how, dict):
+                    c.update(via='attr', columns='ij')
+                elif via == 'kw':
+                    c['via'] = 'kw'
+                elif via == 'argname' and isinstance(how, dict):          # the index of a timeseries argument, named by its parameter
+                    j = [i for i, a in enumerate(kids) if is_pdj(a)]
+                    if j:
+                        c.update(via='argname', argname='abc'[j[-1]], how={'x': idx_of(kids[j[-1]]), 'as': 'idx'})
+                cases.append(c)
     for _ in range(40 if q else 500):                        # lj / rj with >= 3 series whose last (first) index repeats another one
         k = rng.choice([3, 3, 4, 5])
         items = [rand_ts(rng, idx, 0.15) for idx in index_family(rng, k, 'ends')]
@@ -627,10 +700,67 @@ def gen_cases(rng, tier):
         items = [rand_ts(rng, idxs[0], 0.0), rand_ts(rng, idxs[1], 0.0), {'A': [rand_val(rng) for _ in range(rng.randrange(0, 5))]}]
         rng.shuffle(items)
         cases.append({'kind': 'sync', 'tree': {'L': items}, 'how': rng.choice(POLICIES), 'method': rng.choice(METHODS), 'columns': 'ij'})
+    for _ in range(60 if q else 800):                        # df_columns directly, every policy
+        tr = rand_collection(rng, pframe=0.8, max_ts=4)
+        for cp in POLICIES:
+            cases.append({'kind': 'columns', 'tree': tr, 'how': cp})
+    for _ in range(12 if q else 120):                        # long series (120-250 rows) and long arrays (100-150)
+        pool = list(range(300))
+        items = [{'S': [[t, rand_val(rng, 0.3)] for t in sorted(rng.sample(pool, rng.randrange(120, 251)))]} for _ in range(rng.choice([2, 3]))]
+        if rng.random() < 0.5:
+            idx = sorted(rng.sample(pool, 130))
+            items.append({'F': {'cols': ['b', 'a'], 'idx': idx, 'rows': [[rand_val(rng, 0.4), rand_val(rng, 0.4)] for _ in idx]}})
+        tr = nest(rng, items, 2)
+        for how in rng.sample(POLICIES, 2):
+            cases.append({'kind': rng.choice(['sync', 'reindex']), 'tree': tr, 'how': how, 'method': rng.choice(METHODS), 'columns': 'ij'})
+        arrs = {'L': [{'A': [rand_val(rng, 0.3) for _ in range(rng.randrange(100, 151))]},
+                      {'A2': {'k': 2, 'rows': [[rand_val(rng, 0.3), rand_val(rng, 0.3)] for _ in range(rng.randrange(100, 151))]}}]}
+        cases.append({'kind': 'sync', 'tree': arrs, 'how': rng.choice(POLICIES), 'method': rng.choice(METHODS), 'columns': 'ij'})
+    for _ in range(10 if q else 60):                         # not a container: returned as is
+        cases.append({'kind': 'sync', 'tree': rand_ts(rng, index_family(rng, 1)[0]), 'how': rng.choice(POLICIES), 'method': rng.choice(METHODS), 'columns': 'ij'})
     for c in cases:
-        if c['kind'] in ('reindex', 'index'):
+        if c['kind'] in ('reindex', 'index', 'columns'):
             c.pop('columns', None)
-    return cases
+    return [decorate(rng, c) for c in cases]
+
+# ---- kinds of input the plain streams do not reach: other tick lengths / origins, other spellings, other names
+LONGCOLS = {'a': 'px_last', 'b': 'vol 2', 'c': 'Ab', 'd': 'close'}
+INTCOLS = {'a': 3, 'b': 1, 'c': 4, 'd': 2}
+LONGKEYS = {'p': 'key one', 'q': 'K2'}
+INTKEYS = {k: i + 1 for i, k in enumerate('pqrstuvw')}
+def map_tree(tr, fc, fk):
+    if 'L' in tr:
+        return {'L': [map_tree(x, fc, fk) for x in tr['L']]}
+    if 'D' in tr:
+        return {'D': [[fk.get(k, k), map_tree(x, fc, fk)] for k, x in tr['D']]}
+    if 'F' in tr:
+        return dict(tr, F=dict(tr['F'], cols=[fc.get(c, c) for c in tr['F']['cols']]))
+    return tr
+
+def decorate(rng, case):
+    c = dict(case)
+    r = rng.random()
+    if r < 0.35:
+        c['unit'] = rng.choice([3600 * 10**6, 1, 37000001, 10**6, DAYUS])
+        c['d0'] = rng.choice(['1900-01-01', '2020-02-29T13:45:10.000123', '2250-12-31', '2020-01-01'])
+    if rng.random() < 0.3 and not c.get('via') in ('attr', 'argname'):
+        sp = {}
+        if not isinstance(c['how'], dict):
+            sp['how'] = rng.choice(HOW_SPELL[c['how'][0]])
+        if c.get('method'):
+            sp['method'] = rng.choice(METHOD_SPELL[c['method']])
+            if sp['method'] == 'pad' and any(is_arrj(l) for l in case_leaves(c)):
+                sp['method'] = 'ffill'       # df_fillna(array, 'pad') raises TypeError with pandas 3 (fillna(method=) is gone): reported for C12
+        if isinstance(c.get('columns'), str) and c['kind'] in ('sync', 'presync'):
+            sp['columns'] = rng.choice(HOW_SPELL[c['columns'][0]])
+        c['spell'] = sp
+    if rng.random() < 0.25:
+        fc = rng.choice([LONGCOLS, INTCOLS, {}]); fk = rng.choice([LONGKEYS, INTKEYS, {}])
+        if 'tree' in c:
+            c['tree'] = map_tree(c['tree'], fc, fk)
+        else:
+            c['args'] = [map_tree(a, fc, fk) for a in c['args']]
+    return c
 
 # ------------------------------------------------------------------ shrinking
 def _variants(tr):
